@@ -149,6 +149,10 @@ SPECS = {
                           policy=(0, 0, 0), named=("reversal",), isolated=False, real=False, tiers=("thorough",)),
 }
 
+# accelforge's numba kernels are declared cache=True; without a writable cache every fresh interpreter
+# (hash-seed / cache children, loky workers) spends ~40 CPU-s re-compiling them.  Keyed by source path + mtime.
+NUMBA_CACHE = "/tmp/verif-numba-cache"
+
 _BASE: dict = {}  # spec -> canonical baseline
 _SITES: dict = {}  # spec -> [(seq, n)] menu sites of the n_jobs=4 default run
 _LABELS: dict = {}  # spec -> {seq: job-function name of the call site}
@@ -265,6 +269,7 @@ def spawn_child(args, hashseed=0, tag="child"):
     d = tempfile.mkdtemp(prefix=f"{tag}-", dir=os.getcwd())
     env = dict(os.environ, PYTHONHASHSEED=str(hashseed), TQDM_DISABLE="1")
     env["TMPDIR"] = d
+    env.setdefault("NUMBA_CACHE_DIR", NUMBA_CACHE)
     so, se = open(os.path.join(d, "stdout.txt"), "w"), open(os.path.join(d, "stderr.txt"), "w")
     try:
         proc = subprocess.Popen([sys.executable, "-c", _CHILD_CODE, json.dumps(args)], cwd=d, env=env,
@@ -613,6 +618,7 @@ def _run(ctx):
     tmp = os.path.join(ctx.scratch, "tmp")
     os.makedirs(tmp, exist_ok=True)
     tempfile.tempdir = tmp  # NOT os.environ["TMPDIR"]: pydot's vendored tempfile caches it for good
+    os.environ.setdefault("NUMBA_CACHE_DIR", NUMBA_CACHE)
     import accelforge.mapper.FFM.main  # noqa: F401  (import once, before forking)
 
     # baselines (serial, hash seed of this process = 0, no cache) and the call-site traces
